@@ -1,13 +1,13 @@
 SPECIFICATION Spec
 CONSTANTS
-  Devs <- DevAll
+  Devs <- DevBoth
   Ops <- OpsIns
   ByteStrings <- BytesQuick
   NumSeqs <- NumsQuick
   NewObjs <- MCNewObjs
   MaxDepth = 3
   Starts <- StartsIns
-  Allowed = {"content.sharedStream", "resources.nameCollision"}
+  Allowed = {}
   Emit = TRUE
   EmitMod = 150
   EmitModV = 25
